@@ -248,6 +248,28 @@ pub fn opts_for(prop: &str) -> GenOpts {
 }
 
 fn chunk_size(rng: &mut Rng, len: usize) -> usize {
+    if len > 24 {
+        // "large" runs: sizes around powers of two and around the length
+        let big = [
+            1,
+            7,
+            8,
+            15,
+            16,
+            17,
+            31,
+            32,
+            33,
+            63,
+            64,
+            65,
+            len / 2,
+            len - 1,
+            len,
+            len + 1,
+        ];
+        return (*rng.pick(&big)).max(1);
+    }
     let cands = [
         1,
         2,
@@ -270,6 +292,15 @@ fn chunk_size(rng: &mut Rng, len: usize) -> usize {
 }
 
 fn pick_len(rng: &mut Rng, kind: Kind, max_len: usize) -> usize {
+    if max_len >= 12 && rng.chance(4, 100) {
+        // a few "large" runs: a defect that only shows beyond some size threshold
+        // (a chunk of more than 32 elements, a length above 64, ...) must not hide in the small scope
+        let l = *rng.pick(&[31usize, 32, 33, 63, 64, 65, 100, 129]);
+        if matches!(kind, Kind::Array | Kind::ArrayRef) {
+            return *rng.pick(&[33usize, 64]);
+        }
+        return l;
+    }
     let l = match rng.below(10) {
         0 => 0,
         1 => 1,
